@@ -1,10 +1,174 @@
-import GoatSpec.MarkSpec
-import GoatSpec.Splice
-/-! # C03 — property theorems (instrumenter family); see DESIGN.md §6 -/
+import GoatSpec.Proofs.Walk
+/-! # C03 — every changed executable statement is guarded by a tracking point.
+
+Proved here for **line granularity** and for the header rule's forced positions, for every
+abstract file / event list (induction over the statement tree and over the event list). The
+scope / patch / func clauses and the statement positions the walk does not enter (recorded
+classes D-C03-1, D-C03-3, D-C03-45) are decided by the `judge:marks` predicate
+(`MarkSpec.c03Reasons`) on every implementation answer of the correspondence streams and are
+listed as known findings where the unchanged tree violates them; the theorems below carry the
+suffix `_partial` for that reason. -/
 namespace GoatSpec.C03
 open GoatSpec
 
-/-- placeholder obligation replaced below by the real theorems of this property -/
-theorem blockHeight_eq : blockHeight = 4 := rfl
+/-- general form of `markInsert_mem`: the first non-comment line at or after the argument is a
+    position afterwards, provided it lies inside a function -/
+theorem markInsert_mem_skip (env : Env) (st st' : MState) (line r : Nat)
+    (hs : skipComments env (env.comments.size + 1) line = .ok r) (hf : searchScopes env.funcs r ≠ 0)
+    (h : markInsert env st line = .ok st') : r ∈ st'.multi := by
+  unfold markInsert at h
+  rw [hs] at h
+  simp only at h
+  split at h
+  · next h0 => simp at h0; exact absurd h0 hf
+  · split at h
+    · next hcont => cases h; simpa [List.contains_iff_mem] using hcont
+    · cases h; simp
+
+/-- at line granularity, an event that reaches `forceMark` leaves its (comment-adjusted) line marked -/
+theorem force_line (env : Env) (hg : env.gran = .line) (st st' : MState) (l r : Nat)
+    (hs : skipComments env (env.comments.size + 1) l = .ok r) (hf : searchScopes env.funcs r ≠ 0)
+    (h : forceMark env st l = .ok st') : r ∈ st'.multi := by
+  unfold forceMark at h
+  rw [hg] at h
+  exact markInsert_mem_skip env st st' l r hs hf h
+
+/-- **line granularity, fold level.** For every event list: if the fold terminates normally,
+    then for every `check l` event whose line is changed, and every `force l` event, the first
+    non-comment line `r ≥ l` is a tracking position whenever it lies inside a function. -/
+theorem events_marked_line (env : Env) (hg : env.gran = .line) (evs : List Ev) :
+    ∀ (st st' : MState), Inv env st → evs.foldlM (stepEv env) st = .ok st' →
+    ∀ l r, ((Ev.check l ∈ evs ∧ env.isChanged l = .ok true) ∨ Ev.force l ∈ evs) →
+      skipComments env (env.comments.size + 1) l = .ok r → searchScopes env.funcs r ≠ 0 →
+      r ∈ st'.multi := by
+  induction evs with
+  | nil => intro st st' _ _ l r h; rcases h with ⟨h, _⟩ | h <;> cases h
+  | cons ev rest ih =>
+    intro st st' hinv h l r hev hs hf
+    obtain ⟨b', h1, h2⟩ := (foldlM_ok_cons _ _ _ _ _).mp h
+    have s1 := stepEv_spec env st b' ev hinv h1
+    have s2 := runFrom_spec env rest b' st' s1.1 h2
+    -- is the event the head?
+    have hhead : (ev = .check l ∧ env.isChanged l = .ok true) ∨ ev = .force l ∨
+        ((Ev.check l ∈ rest ∧ env.isChanged l = .ok true) ∨ Ev.force l ∈ rest) := by
+      rcases hev with ⟨hm, hc⟩ | hm
+      · rcases List.mem_cons.mp hm with e | e
+        · exact Or.inl ⟨e.symm, hc⟩
+        · exact Or.inr (Or.inr (Or.inl ⟨e, hc⟩))
+      · rcases List.mem_cons.mp hm with e | e
+        · exact Or.inr (Or.inl e.symm)
+        · exact Or.inr (Or.inr (Or.inr e))
+    rcases hhead with ⟨e, hc⟩ | e | hrest
+    · subst e
+      simp only [stepEv, hc] at h1
+      exact s2.2.1 r (force_line env hg st b' l r hs hf h1)
+    · subst e
+      simp only [stepEv] at h1
+      exact s2.2.1 r (force_line env hg st b' l r hs hf h1)
+    · exact ih b' st' s1.1 h2 l r hrest hs hf
+
+theorem mem_sortNat (x : Nat) (l : List Nat) : x ∈ sortNat l ↔ x ∈ l := by
+  unfold sortNat
+  induction l with
+  | nil => simp
+  | cons y ys ih =>
+    simp only [List.foldr_cons, List.mem_cons]
+    rw [← ih]
+    generalize List.foldr _ [] ys = acc
+    induction acc with
+    | nil => simp [sortNat.ins]
+    | cons z zs ihz =>
+      simp only [sortNat.ins]
+      split
+      · simp
+      · split
+        · next hxy => simp at hxy; subst hxy; simp
+        · simp only [List.mem_cons, ihz]
+          constructor
+          · rintro (h | h | h)
+            · exact Or.inr (Or.inl h)
+            · exact Or.inl h
+            · exact Or.inr (Or.inr h)
+          · rintro (h | h | h)
+            · exact Or.inr (Or.inl h)
+            · exact Or.inl h
+            · exact Or.inr (Or.inr h)
+
+theorem mkEnv_gran (f : File) (g : Gran) (ranges : List (Nat × Nat)) (env : Env)
+    (h : mkEnv f g ranges = .ok env) : env.gran = g := by
+  unfold mkEnv at h
+  split at h
+  · cases h
+  · dsimp only at h
+    split at h
+    · cases h
+    · split at h
+      · cases h
+      · cases h; rfl
+
+/-- **C03, line granularity (partial: statements in the positions the walk enters).**
+    For every abstract file and changed-line set on which the tracker terminates normally: a
+    marking statement (assignment, short declaration, var declaration with values, call, send,
+    inc/dec, return, go, defer, branch, bare block) of a declared function's body that the
+    statement walk reaches — through any nesting of if / else-if / else / for / range / switch /
+    type switch / select / case bodies, bare blocks, labels and multi-line function literals in
+    the entered expression positions — and whose first line `l` is changed, is not comment-like
+    and lies strictly inside a function, has a tracking block directly before it:
+    `l ∈ (marks f .line ranges).multi`. -/
+theorem line_guard_partial (f : File) (ranges : List (Nat × Nat)) (m : Marks)
+    (h : marks f .line ranges = .ok m)
+    (lb rb : Nat) (p : Nat × Nat) (stmts : List Stmt)
+    (hd : Decl.funcDecl (some (lb, rb, some p, stmts)) ∈ f.decls)
+    (l : Nat) (hw : WalkedL l stmts)
+    (env : Env) (henv : mkEnv f .line ranges = .ok env)
+    (hch : env.isChanged l = .ok true) (hnc : env.isComment l = .ok false)
+    (hin : searchScopes env.funcs l ≠ 0) : l ∈ m.multi := by
+  unfold marks at h
+  rw [henv] at h
+  simp only at h
+  split at h
+  · cases h
+  · next st hst =>
+    cases h
+    rw [mem_sortNat]
+    have hg : env.gran = .line := mkEnv_gran f .line ranges env henv
+    have hev : Ev.check l ∈ fileEvents (fun l => env.changed.getD l false) f := by
+      apply List.mem_flatMap.mpr
+      refine ⟨_, hd, ?_⟩
+      simp only [declEvents]
+      apply List.mem_append.mpr; left
+      apply List.mem_append.mpr; right
+      exact walkedL_ev hw
+    exact events_marked_line env hg _ {} st (Inv.init env) hst l l (Or.inl ⟨hev, hch⟩)
+      (skipComments_id env _ l hnc) hin
+
+/-- header rule, line granularity: a changed `if` header forces the line after the opening
+    brace of the body (and of a non-empty plain else block) -/
+theorem if_header_forces (ch : Nat → Bool) (l e : Nat) (init : List Stmt) (ir cr : ORng) (cond : List Expr)
+    (lb rb : Nat) (body els : List Stmt) (hch : ch l = true) :
+    Ev.force (lb + 1) ∈ ctlS ch (.ifS l e init ir cr cond lb rb body els) := by
+  simp [ctlS, hch]
+
+theorem for_header_forces (ch : Nat → Bool) (l e : Nat) (init : List Stmt) (ir cr pr : ORng) (cond : List Expr)
+    (post : List Stmt) (lb rb : Nat) (body : List Stmt) (hch : ch l = true) :
+    Ev.force (lb + 1) ∈ ctlS ch (.forS l e init ir cr pr cond post lb rb body) := by
+  simp [ctlS, hch]
+
+theorem range_header_forces (ch : Nat → Bool) (l e : Nat) (kr vr xr : ORng) (kvx : List Expr)
+    (lb rb : Nat) (body : List Stmt) (hch : ch l = true) :
+    Ev.force (lb + 1) ∈ ctlS ch (.rangeS l e kr vr xr kvx lb rb body) := by
+  simp [ctlS, hch]
+
+theorem case_header_forces (ch : Nat → Bool) (l e : Nat) (lr : List (Nat × Nat)) (list : List Expr)
+    (colon : Nat) (body : List Stmt) (hch : ch l = true) :
+    Ev.force (colon + 1) ∈ ctlS ch (.caseC l e lr list colon body) := by
+  simp [ctlS, hch]
+
+/-- non-vacuity of `line_guard_partial`'s walk hypothesis: a statement nested in an else-if body
+    inside a multi-line function literal on the right of an assignment is reached -/
+example : WalkedL 7 [.simple .mark 3 9 [] [.funcLit 3 9 3 9 (some (4, 2))
+    [.ifS 4 8 [] none none [] 4 8 [] [.ifS 6 8 [] none none [] 6 8 [.simple .mark 7 7 [] [] []] []]]] []] :=
+  .head (.markE (.head (.lit (by decide) (.head (.ifElseIf (by intro a b c h; cases h)
+    (.ifB (.head .mark)))))))
 
 end GoatSpec.C03
